@@ -66,6 +66,7 @@ class VisualParameters(TextData):
 
     @values.setter
     def values(self, values: np.ndarray | str | None):
+        self._xml = None
         self._values = values
 
         if not isinstance(values, (np.ndarray, str, type(None))):
